@@ -76,3 +76,11 @@ theorem readAt_tail (d : Bytes) (n : Nat) : readAt d n (d.length - n) = d.drop n
   simp [readAt, List.take_of_length_le]
 
 end AgdbStorage
+
+namespace AgdbStorage
+
+theorem writeAt_inrange (d : Bytes) (pos : Nat) (bs : Bytes) (h : pos ≤ d.length) :
+    writeAt d pos bs = d.take pos ++ bs ++ d.drop (pos + bs.length) := by
+  simp [writeAt, Nat.sub_eq_zero_of_le h]
+
+end AgdbStorage
